@@ -190,7 +190,8 @@ func WorkerMain(t *testing.T) {
 		os.MkdirAll(scratch, 0o755)
 		runStarted.Store(time.Now().UnixNano())
 		traceDir := os.Getenv("VERIF_TRACE_DIR")
-		r := RunOnce(t, w, NewTape(seed), traceDir != "", known, params, scratch)
+		detRun := detEvery > 0 && n%detEvery == 0 // this run is repeated below: keep its trace for the diff
+		r := RunOnce(t, w, NewTape(seed), traceDir != "" || detRun, known, params, scratch)
 		runStarted.Store(0)
 		if traceDir != "" {
 			os.MkdirAll(traceDir, 0o755)
@@ -234,17 +235,24 @@ func WorkerMain(t *testing.T) {
 			os.RemoveAll(scratch)
 			os.MkdirAll(scratch, 0o755)
 			runStarted.Store(time.Now().UnixNano())
-			r2 := RunOnce(t, w, NewTape(seed), false, known, params, scratch)
+			r2 := RunOnce(t, w, NewTape(seed), true, known, params, scratch)
 			runStarted.Store(0)
 			res.DetChecks++
 			if r2.LogHash != r.LogHash || (r2.Violation != nil) {
-				res.DetFailures = append(res.DetFailures, fmt.Sprintf("seed=%d idx=%d: %x vs %x", seed, idx, r.LogHash, r2.LogHash))
-				for _, tag := range []string{"a", "b"} {
-					os.RemoveAll(scratch)
-					os.MkdirAll(scratch, 0o755)
-					rr := RunOnce(t, w, NewTape(seed), true, known, params, scratch)
-					os.WriteFile(fmt.Sprintf("/dev/shm/verif-det-%s-%d-%s.log", prop, seed, tag), []byte(strings.Join(rr.Lines, "\n")+"\n"), 0o644)
+				// the two traces that differed (not later repetitions, which may agree with each other)
+				os.WriteFile(fmt.Sprintf("/dev/shm/verif-det-%s-%d-a.log", prop, seed), []byte(strings.Join(r.Lines, "\n")+"\n"), 0o644)
+				os.WriteFile(fmt.Sprintf("/dev/shm/verif-det-%s-%d-b.log", prop, seed), []byte(strings.Join(r2.Lines, "\n")+"\n"), 0o644)
+				first := ""
+				for i := 0; i < len(r.Lines) && i < len(r2.Lines); i++ {
+					if r.Lines[i] != r2.Lines[i] {
+						first = fmt.Sprintf(" first difference at line %d: %q vs %q", i+1, r.Lines[i], r2.Lines[i])
+						break
+					}
 				}
+				if first == "" {
+					first = fmt.Sprintf(" (one trace is a prefix of the other: %d vs %d lines)", len(r.Lines), len(r2.Lines))
+				}
+				res.DetFailures = append(res.DetFailures, fmt.Sprintf("seed=%d idx=%d: %x vs %x;%s", seed, idx, r.LogHash, r2.LogHash, first))
 			}
 		}
 		if n == 0 && from == 0 && len(res.Samples) == 0 {
